@@ -20,6 +20,17 @@ Inductive gstmt :=
   | GRaise                         (* raise RuntimeError(...) *)
   | GWith (body : list gstmt).     (* with <class-level lock>: body               (acquire ... release) *)
 
+(* how often executing the HEAD of a statement (its test, its assignment, its lock operation — not its
+   sub-blocks, which are statements of their own) touches the shared attribute active_in_thread *)
+Definition head_accesses (s : gstmt) : nat :=
+  match s with
+  | GIfNone _ _ => 1      (* one read *)
+  | GIfNeq _ => 1         (* one read *)
+  | GSet => 1             (* one write *)
+  | GRaise => 0
+  | GWith _ => 0          (* lock acquire / release only *)
+  end.
+
 (* src/AEIC/trajectories/store.py as it stands before the repair of F19 *)
 Definition guard_as_coded : list gstmt := [GIfNone [GSet] [GIfNeq [GRaise]]].
 (* the repaired constructor: the same statements under a class-level lock *)
